@@ -36,18 +36,25 @@ CHECKS = [
         "Trusted: givc C front end, stub headers, g_info_new/g_base_info_get_type by assumed contract, count*size products by "
         "congruence (no overflow modelling). Also under contract: the interface accessors (InterfaceBlob layout), "
         "g_struct_get_field_offset, g_union_info_get_field/method, g_enum_info_get_value/method and the attribute run lookup "
-        "(_attribute_blob_find_first). Callable / type accessors, g_irepository_get_info / find_by_name and the g-ir-generate text "
-        "are not under contract.", "DESIGN.md section 4 C09",
+        "(_attribute_blob_find_first), and the type slots handed out as GITypeInfo (_g_type_info_new / _g_type_info_init: a slot "
+        "whose low 24 bits are zero is an inline basic type, any other value is the offset of the complex type blob; the union / "
+        "bit-field layout of SimpleTypeBlob on a little-endian GCC target is an assumed precondition). Callable accessors, the "
+        "gitypeinfo.c accessors, g_irepository_get_info / find_by_name and the g-ir-generate text are not under contract.",
+        "DESIGN.md section 4 C09",
         technique="deductive verification: clang-AST -> VC generator (givc C front end) on the real C functions + z3"),
     chk("C17", "The real version-election functions of girepository.c are proved: compare_version is the numeric (major, minor) "
         "order, compare_candidate_reverse is 'higher version first, earlier directory among equals' and is a total preorder "
         "(reflexive, antisymmetric, transitive lemmas), find_namespace_version returns the file of the first search-path directory "
         "that has <ns>-<version>.typelib and NULL otherwise, find_namespace_latest elects a candidate no other candidate beats, "
         "check_version_conflict refuses a different loaded version; enumerate_namespace_versions maps and lists only directory "
-        "entries named <namespace>-<...>.typelib, each candidate carrying the path of its entry (call-discipline clauses).",
+        "entries named <namespace>-<...>.typelib, each candidate carrying the path of its entry (call-discipline clauses); "
+        "load_dependencies_recurse: the loop is left only at the terminating NULL of the dependency vector and every entry "
+        "before it went through g_irepository_require with exactly its namespace (text before the last dash) and version (a ghost "
+        "map namespace -> loaded version is maintained by the assumed contract of g_irepository_require), a failing entry returns FALSE.",
         "Trusted: givc C front end, stub headers, GLib by assumed contract (g_mapped_file_new, g_build_filename, g_slist_sort as sorted "
         "permutation, g_str_equal), parse_version (strtol scanning), the set and order of directory entries, the version text cut out by strrchr / g_strndup and the hash table of seen versions are not modelled (the resulting candidate list is only named). require/register/"
-        "dependency loading and call histories are not yet under contract.", "DESIGN.md section 4 C17",
+        "and call histories (g_irepository_require itself, register_internal, the transitive closure of dependencies) are not under "
+        "contract.", "DESIGN.md section 4 C17",
         technique="deductive verification: clang-AST -> VC generator (givc C front end) on the real C functions + z3"),
     chk("C14", "The real lookup functions of gitypelib.c (by name incl. the hashed path, by GType name, by error domain) are proved: "
         "a returned entry always carries exactly the probed string (the mandatory final comparison), lies among the local entries, "
@@ -80,7 +87,9 @@ CHECKS = [
         "Trusted: givc, ElementTree (findall, iteration), Node.create_type, Transformer.resolve_type, list.remove (coarse); inside "
         "parse the merging functions _introspect_type / _introspect_error_quark / _pair_boxed_type / _pair_pointer_type by coarse "
         "assumed frames, dict iteration order as a ghost key list, namespace nodes have a name and a namespace (assumed data "
-        "invariant), no symbol filter command. The parent-chain fallback, virtual methods and error quarks are not under contract; "
+        "invariant), no symbol filter command. _pass_type_resolution (loop postconditions): the parent type of a class is an entry "
+        "of the reported parent chain whose target is known, a class without a known entry keeps its parent (none is invented), "
+        "an interface falls back to GObject.Object. The parent-chain fallback, virtual methods and error quarks are not under contract; "
         "gdump.c is out of scope.", "DESIGN.md section 4 C12"),
     chk("C03", "Contracts on the real identifier-level annotation functions: generic metadata (doc, Since/Deprecated/Stability, skip, "
         "foreign, constructor only on functions, method, set/get-property), block-name selection, and rename-to as a mutually "
@@ -90,7 +99,8 @@ CHECKS = [
         "parameters and return value (_apply_annotations_callable). Virtual invokers (_pass_read_annotations2, loop postconditions): "
         "the FIRST slot of the owning class named by (virtual SLOT) gets this function as invoker whatever automatic pairing set "
         "before, every other slot keeps its invoker, the invoker's block is merged into that slot; a (virtual) on a method of a type "
-        "without slots raises nothing (genuine defect repaired by /repo 3f401a8).",
+        "without slots raises nothing (genuine defect repaired by /repo 3f401a8). Enumeration members: a block carrying the member's "
+        "own C name wins over the @MEMBER line of the enumeration block (its (skip) takes effect).",
         "Trusted: givc, schema incl. ownership regions of dictionaries; _apply_annotations_params (assumed, frame incomplete for the "
         "parameters' attribute dictionaries - stated in its note), _check_instance_parameter; slots pairwise distinct objects and "
         "scanned slots have a C return type (assumed data invariants). Signals, copy/free/ref/unref functions and the automatic "
@@ -154,7 +164,9 @@ CHECKS = [
         "Positions: frame obligation C11.position.never_written_after_construction for ALL functions of giscanner/*.py - a "
         "message.Position (slots only) is written nowhere but in its constructor, so a diagnostic issued later (validate() runs "
         "after the block was read) still names the line the object was built for; decided by a write-set census of the real "
-        "source on every run, a failure is replayed natively.",
+        "source on every run, a failure is replayed natively. GtkDocAnnotatable.validate raises nothing for any annotation "
+        "dictionary (annotations without options included) and only diagnoses; the ~40 _do_validate_* methods it selects by name "
+        "go by one assumed contract.",
         "Trusted: givc, schema, MessageLogger.get singleton, Position.format, str.split/strip/lower/isspace as uninterpreted "
         "functions. The line state machine of parse_comment_block, positions/carets and the warn_fatal gate are not under contract; "
         "list mode of _parse_annotations (parse_options=False) is excluded by precondition.", "DESIGN.md section 4 C11"),
